@@ -183,6 +183,21 @@ type plainItem struct {
 	tags []string
 }
 
+type fmtErr struct{ v string }
+
+func (e fmtErr) Error() string { return "Error() of " + e.v }
+func (e fmtErr) Format(f fmt.State, verb rune) { fmt.Fprint(f, "Format() output") }
+
+type fmtStr struct{ v string }
+
+func (e fmtStr) String() string { return "String() of " + e.v }
+func (e fmtStr) Format(f fmt.State, verb rune) { fmt.Fprint(f, "Format() output") }
+
+type fmtGo struct{ v string }
+
+func (e fmtGo) GoString() string { return "GoString() of " + e.v }
+func (e fmtGo) Format(f fmt.State, verb rune) { fmt.Fprint(f, "Format() output") }
+
 type namedS string
 
 func (n namedS) String() string { return "String() of " + string(n) }
@@ -413,6 +428,11 @@ func runC01(x *X) {
 		{"named string without methods", func() interface{} { return namedPlain("raw-value") }, sp("raw-value"), []string{"named_string_type"}},
 		{"named int with String()", func() interface{} { return namedInt(7) }, sp("seven"), nil},
 		{"named rune type with String()", func() interface{} { return namedRune('x') }, sp("rune-x"), nil},
+		// types that ALSO implement fmt.Formatter: the ladder still decides (fmt's %v would call Format instead)
+		{"error that is also a fmt.Formatter", func() interface{} { return fmtErr{"boom"} }, sp("Error() of boom"), []string{"also_a_formatter"}},
+		{"error+Formatter with empty Error()", func() interface{} { return fmtErr{""} }, sp("Error() of "), []string{"also_a_formatter"}},
+		{"Stringer that is also a fmt.Formatter", func() interface{} { return fmtStr{"s"} }, sp("String() of s"), []string{"also_a_formatter"}},
+		{"GoStringer that is also a fmt.Formatter", func() interface{} { return fmtGo{"g"} }, sp("GoString() of g"), []string{"also_a_formatter"}},
 		{"nil map", func() interface{} { return map[string]int(nil) }, pv, nil},
 		{"nil slice", func() interface{} { return []int(nil) }, pv, nil},
 		{"nil func", func() interface{} { return (func())(nil) }, pv, nil},
